@@ -460,9 +460,17 @@ def solve_pareto_front(
         opt.minimize(z3.Int(vname))
 
     results: list[dict[str, int]] = []
+    seen: set[tuple[int | None, ...]] = set()
     while opt.check() == z3.sat:
         m = opt.model()
-        results.append(_int_assignments(m))
+        solution = _int_assignments(m)
+        # with a single objective z3 keeps answering sat with the same optimum: a repeated
+        # objective vector means the front is exhausted
+        objective = tuple(solution.get(vname) for vname in minimize_vars)
+        if objective in seen:
+            break
+        seen.add(objective)
+        results.append(solution)
         if max_solutions is not None and len(results) >= max_solutions:
             break
 
